@@ -139,7 +139,12 @@ def check(c):
 
     # ---- key round trip
     ci = c.func(BR, 'get_broadcast_change_iter')
-    consts = [n.value for n in c.idx.walk(ci.node) if isinstance(
+    ci_nodes = list(c.idx.walk(ci.node))
+    for call in [x for x in ci_nodes if isinstance(x, ast.Call)]:
+        h = c.resolve_helper(call)
+        if h is not None and h.mod == ci.mod and h is not ci:
+            ci_nodes += list(c.idx.walk(h.node))
+    consts = [n.value for n in ci_nodes if isinstance(
         n, ast.Constant) and isinstance(n.value, str)]
     c.ob('C22.key-codec', f'{ci.fq} :: writes "[section]" prefixes',
          '[' in consts and ']' in consts, c.where(ci.node, ci), '')
